@@ -303,6 +303,8 @@ mod lake;
 mod pool;
 #[cfg(all(test, debug_assertions))]
 mod reentrancy;
+#[cfg(folo_verif)]
+pub mod verif;
 
 pub use core::*;
 
